@@ -76,6 +76,17 @@ def order(ctx: Any) -> List[Ob]:
     if not sends or not conflict_tests:
         raise AnalysisError('anchor vanished: probe send / conflict test in async_check_service')
     obs.append(ob(R, g, 'while self.cache.current_entry_with_name_and_alias(info.type, info.name): ... self.async_send(probe)', 'a probe is sent only after the conflict check of the same iteration found no conflict', all(cfg.dominated_by_any(s, conflict_tests) for s in sends) and all(any(s2 is ct for s2 in [p for p, lab in s.pred] ) or cfg.path_avoiding(ct, lambda n, s=s: n is s, lambda n: False) is not None for s in sends for ct in conflict_tests)))
+    # the check and the probe are one atomic step: no suspension point between them (the cache changes while the task sleeps)
+    awaits = [n for n in cfg.nodes if any(isinstance(x, ast.Await) for e in n.exprs() for x in ast.walk(e))]
+    stale = []
+    for a in awaits:
+        for s_ in sends:
+            if a is s_:
+                continue
+            w = cfg.path_avoiding(a, lambda n, s_=s_: n is s_, lambda n: n in conflict_tests)
+            if w is not None:
+                stale.append((a, s_))
+    obs.append(ob(R, g, stale[0][0].ast if stale else 'conflict check ; probe', 'after every wait the conflict check runs again before the next probe is sent (a conflict learnt while waiting is seen before, not after, the probe)', bool(awaits) and not stale, f'the wait at line {stale[0][0].line} can be followed by the probe at line {stale[0][1].line} without a new conflict check' if stale else ''))
     ct = conflict_tests[0]
     call = next(c for c in ct.calls() if call_name(c) == 'current_entry_with_name_and_alias')
     obs.append(ob(R, g, call, 'the conflict check looks for a live pointer of the service type to the proposed instance name', [norm(a) for a in call.args] == [f'{g.params[1]}.type', f'{g.params[1]}.name']))
@@ -230,7 +241,7 @@ def const(ctx: Any) -> List[Ob]:
     ivar = norm(lp[0].ast.target)
     first, _ = fd.run_paths(prog, b.module, cfgb, {ivar: 0}, eff, start=lp[0], stop=lambda n: n is lp[0], loop_bound=1, for_iter=lambda n, e: True)
     later, _ = fd.run_paths(prog, b.module, cfgb, {ivar: 1}, eff, start=lp[0], stop=lambda n: n is lp[0], loop_bound=1, for_iter=lambda n, e: True)
-    obs.append(ob(R, b, 'if i != 0: await asyncio.sleep(...)', 'the first announcement goes out at once, later ones after the interval', {strip_ret(t) for t in first} == {('SEND',)} and {strip_ret(t) for t in later} == {('SLEEP', 'SEND')}))
+    obs.append(ob(R, b, 'if i != 0: await asyncio.sleep(...)', 'the first announcement goes out at once, later ones after the interval', {strip_ret(t) for t in first if 'SEND' in t} == {('SEND',)} and {strip_ret(t) for t in later if 'SEND' in t} == {('SLEEP', 'SEND')} and all(strip_ret(t) in ((), ('SLEEP',)) for t in list(first) + list(later) if 'SEND' not in t)))  # a path that sends nothing (service withdrawn meanwhile) is allowed
     return obs
 
 
